@@ -157,6 +157,39 @@ pub fn run(tier: Tier, seed: u64) -> i32 {
         report.count("in_place_change_calls", n_ip);
     }
 
+    // (2e) file contents a "helpful" reader would normalise: byte order marks, magic numbers, line endings, padding -
+    //      each as prefix and as suffix of each of the five files (the files are opaque bytes)
+    {
+        let marks: [&[u8]; 14] = [&[0xEF, 0xBB, 0xBF], &[0xFF, 0xFE], &[0xFE, 0xFF], b"MZ", &[0x7F, b'E', b'L', b'F'], &[0xCF, 0xFA, 0xED, 0xFE], &[0xCA, 0xFE, 0xBA, 0xBE], b"<?xml", b"\r\n", b"\n", &[0], &[0, 0, 0, 0], b" ", &[0x1A]];
+        let body = refmodel::ctr_bytes(seed, "c17-marks", 23);
+        let mut n_m = 0u64;
+        for mk in marks {
+            for pos in 0..5usize {
+                for suffix in [false, true] {
+                    let mut files: [Vec<u8>; 5] = [body[..5].to_vec(), body[5..9].to_vec(), body[9..14].to_vec(), body[14..20].to_vec(), body[20..].to_vec()];
+                    if suffix {
+                        files[pos].extend_from_slice(mk);
+                    } else {
+                        let mut v = mk.to_vec();
+                        v.extend_from_slice(&files[pos]);
+                        files[pos] = v;
+                    }
+                    let all: Vec<u8> = files.iter().flatten().copied().collect();
+                    let want = integrity(&all, &salt, &key);
+                    let w = login_integrity_check_windows(&files[0], &files[1], &files[2], &files[3], &files[4], &salt, &key);
+                    let m = login_integrity_check_mac(&files[0], &files[1], &files[2], &files[3], &files[4], &salt, &key);
+                    let g = login_integrity_check_generic(&all, &salt, &key);
+                    n_m += 3;
+                    if w != want || m != want || g != want {
+                        viol(&report, "marked-file-content", json!({"mark": hex(mk), "file": pos, "as_suffix": suffix}), format!("file {pos} {} {}: windows {} mac {} generic {} reference {}", if suffix { "ends with" } else { "starts with" }, hex(mk), hex(&w), hex(&m), hex(&g), hex(&want)));
+                    }
+                }
+            }
+        }
+        evals.fetch_add(n_m, Ordering::Relaxed);
+        report.count("marked_content_calls", n_m);
+    }
+
     // (3) sensitivity: every single-byte change of every file, the salt and the key changes the result (and still equals the reference)
     let files: [Vec<u8>; 5] = [
         refmodel::ctr_bytes(seed, "f0", 7),
